@@ -73,8 +73,14 @@ func genQB(t *rapid.T, label string) (int32, int32) {
 		q = rapid.IntRange(500, 5000).Draw(t, label+".qps")
 	}
 	extra := 0
-	if rapid.Bool().Draw(t, label+".extraBurst") {
+	switch rapid.IntRange(0, 3).Draw(t, label+".extraBurst") {
+	case 0, 1:
+	case 2:
 		extra = rapid.IntRange(0, 50).Draw(t, label+".burstExtra")
+	default: // a burst that is a multiple of the rate (kept small enough to be drained by one phase)
+		if b := q * rapid.IntRange(2, 20).Draw(t, label+".burstFactor"); b <= 400 {
+			extra = b - q
+		}
 	}
 	return int32(q), int32(q + extra)
 }
@@ -86,14 +92,36 @@ func genPlan(t *rapid.T) plan {
 	if rapid.IntRange(0, 3).Draw(t, "withGlobal") == 0 {
 		p.Global = int32(rapid.SampledFrom([]int{1, 2, 3, 10, 25, 100}).Draw(t, "global"))
 	}
-	n := rapid.IntRange(1, 5).Draw(t, "phases")
+	n := rapid.IntRange(1, 6).Draw(t, "phases")
+	hist := [][2]int32{{p.QPS, p.Burst}}
 	for i := 0; i < n; i++ {
 		ph := phase{}
 		ph.Calls = rapid.IntRange(1, 300).Draw(t, fmt.Sprintf("phase[%d].calls", i))
+		if b := int(hist[len(hist)-1][1]); b <= 600 && rapid.IntRange(0, 2).Draw(t, fmt.Sprintf("phase[%d].drain", i)) == 0 {
+			ph.Calls = b + 20 // enough calls to drain the burst in force when the phase was drawn
+		}
 		ph.Workers = rapid.IntRange(1, 8).Draw(t, fmt.Sprintf("phase[%d].workers", i))
 		ph.PauseUS = rapid.IntRange(0, 40000).Draw(t, fmt.Sprintf("phase[%d].pauseUS", i))
-		if i > 0 && rapid.IntRange(0, 3).Draw(t, fmt.Sprintf("phase[%d].reconf", i)) == 0 {
-			ph.NewQPS, ph.NewBurst = genQB(t, fmt.Sprintf("phase[%d]", i))
+		if i > 0 && rapid.Bool().Draw(t, fmt.Sprintf("phase[%d].reconf", i)) {
+			// a reconfiguration: fresh values, only one of the two values changed, or back to an earlier configuration
+			// of this history (an operator undoing an edit)
+			cur := hist[len(hist)-1]
+			kind := rapid.IntRange(0, 5).Draw(t, fmt.Sprintf("phase[%d].reconfKind", i))
+			if kind >= 4 && len(hist) < 2 {
+				kind = 2
+			}
+			switch kind {
+			case 0, 1:
+				ph.NewQPS, ph.NewBurst = genQB(t, fmt.Sprintf("phase[%d]", i))
+			case 2: // only the rate changes, the burst stays
+				ph.NewQPS, ph.NewBurst = int32(rapid.IntRange(1, int(cur[1])).Draw(t, fmt.Sprintf("phase[%d].qpsOnly", i))), cur[1]
+			case 3: // only the burst changes
+				ph.NewQPS, ph.NewBurst = cur[0], cur[0]+int32(rapid.IntRange(0, 50).Draw(t, fmt.Sprintf("phase[%d].burstOnly", i)))
+			default: // back to an earlier configuration
+				e := hist[rapid.IntRange(0, len(hist)-2).Draw(t, fmt.Sprintf("phase[%d].backTo", i))]
+				ph.NewQPS, ph.NewBurst = e[0], e[1]
+			}
+			hist = append(hist, [2]int32{ph.NewQPS, ph.NewBurst})
 		}
 		if i > 0 && rapid.IntRange(0, 2).Draw(t, fmt.Sprintf("phase[%d].unrelated", i)) == 0 {
 			ph.UnrelatedSyncs = rapid.IntRange(1, 3).Draw(t, fmt.Sprintf("phase[%d].unrelatedSyncs", i))
@@ -294,8 +322,8 @@ func saveReplay(p plan, msg string) {
 }
 
 func TestPropTokenBucketBounds(t *testing.T) {
-	sub := stats.NewSub("token-bucket-plans", "rapid: (qps 1..5000, burst >= qps) and a plan of 1-5 phases (n calls from 1-8 goroutines, pause 0-40 ms, optional reconfiguration to a new (qps, burst), optional 1-3 spec updates that only change OTHER schemas of the cluster and must not start a new window, optionally the schema first exists as exempt / max-in-flight and is changed in place to the token bucket, or is changed to such a type and back between phases; one plan in four: the schema also carries the global token bucket of a globally limited schema (1-100 times the local values, strategy allocate or count) while the limiter runs in local mode); executed against the real limiter with timestamps around every call; oracle: for every window [before_i, after_j] inside one configuration, #admitted calls completely inside <= burst + qps*T; after a measured idle time t the first min(burst, floor(qps*t)) sequential calls are admitted; non-trivial = the plan has >=1 pause and >=1 refused call; distinct by FNV-64 of the plan")
-	stats.Check(t, stats.N(300, 1500), func(t *rapid.T) {
+	sub := stats.NewSub("token-bucket-plans", "rapid: (qps 1..5000, burst >= qps) and a plan of 1-6 phases (n calls - one phase in three: enough calls to drain the burst - from 1-8 goroutines, pause 0-40 ms, optional reconfiguration (one phase in two: fresh (qps, burst), only the qps changed, only the burst changed, or back to an earlier configuration of the same history), optional 1-3 spec updates that only change OTHER schemas of the cluster and must not start a new window, optionally the schema first exists as exempt / max-in-flight and is changed in place to the token bucket, or is changed to such a type and back between phases; one plan in four: the schema also carries the global token bucket of a globally limited schema (1-100 times the local values, strategy allocate or count) while the limiter runs in local mode); executed against the real limiter with timestamps around every call; oracle: for every window [before_i, after_j] inside one configuration, #admitted calls completely inside <= burst + qps*T; after a measured idle time t the first min(burst, floor(qps*t)) sequential calls are admitted; non-trivial = the plan has >=1 pause and >=1 refused call; distinct by FNV-64 of the plan")
+	stats.Check(t, stats.N(600, 2500), func(t *rapid.T) {
 		p := genPlan(t)
 		ws := execute(p)
 		sub.Eval()
